@@ -127,7 +127,8 @@ transformations:
         keys: [«FR|delFields.key|time»]
   - type: addFields
     fields:
-      ddsource: csharp
+      «FR|addFields2.constkey|ddsource»: csharp
+      «FR|addFields2.emptykey|ddtags»: ''
       hostname: «TP|addFields2.value|$host»
 @RANDOM@#</transformations>
 #<outputs>
